@@ -182,8 +182,17 @@ pub fn run(cx: &mut Cx) {
             "exit_code": out.code, "timed_out": out.timed_out, "marks": got_marks,
             "stdout": tail(&out.stdout), "stderr": tail(&out.stderr),
         });
+        let crashed = matches!(out.code, None | Some(101)) || out.stderr.contains("panicked at");
         if out.timed_out {
             cx.violation("cli_hang", sub, case, json!("the command ends"), observed);
+        } else if crashed {
+            cx.violation(
+                "cli_crash",
+                sub,
+                case,
+                json!({"exit_success": want_success, "never": "a panic / exit status 101 / a signal"}),
+                observed,
+            );
         } else if success != want_success {
             cx.violation(
                 "cli_exit_status",
